@@ -204,6 +204,8 @@ class Net:
         are separate call_soon handles; a cancelled await closes the transport that was made"""
         protocol = factory()
         tr = SimTransport(self.loop, protocol, sock)
+        tr.fail_writes = getattr(self, "fail_writes", None)   # a write failure set before the transport existed
+        self.all_transports = getattr(self, "all_transports", []) + [tr]
         waiter = self.loop.create_future()
 
         def connection_made():
